@@ -11,7 +11,7 @@ INFO = dict(
     trusted=["Lean: ring safety for the extracted slot kernels seq % size; refinement of the replay's ring to 'the message with that sequence number' for every history of consecutive writes, any size, any first "
              "sequence number (C08_ring_reads_live_message / _stale_not_read / _default_until_full, C08_replay_read_live; hypothesis 'consecutive writes' decided per instance by the driver); model of Timings.get_buffer_sizes (Compiled/BufSize.lean) with "
              "C08_computed_size_bounds_live / C08_sized_ring_reads_scheduled / C08_sized_ring_keeps_default, compared with the implementation's sizes on every instance (sched.bufsize); end to end (Compiled/Trace.lean): C08_trace_end_to_end — every trace with consecutive writes, producers "
-             "strictly earlier and sizes >= the model of get_buffer_sizes replays without a bad read — and C08_accepted_instance_replays for the decision procedure sizedOk the driver runs on every instance",
+             "strictly earlier and sizes >= the model of get_buffer_sizes replays without a bad read — and C08_accepted_instance_replays(_from_any_start) for the decision procedure sizedOk the driver runs on every instance (late starts: default output for messages written before the start, never another message)",
              "the masking / reshaping glue of get_buffer_sizes (numpy masked arrays) is covered by the per-instance comparison, not by the model"],
     assumptions=["when execution starts at partition k > 0 a producer that has not run since the start provides its default output (documented for only_init)"],
 )
@@ -106,9 +106,9 @@ def run(ctx):
             if not o["consecutive"]:
                 res.fail("write_order", f"seed={t['args']['seed']} ({t['args']['spec_kind']}) {it['mode']} prune={it['prune']} episode {it['episode']} (start {start}): a node does not write consecutive sequence numbers "
                          f"into its output buffer, so a ring of any size can hold a message other than the scheduled one", dict(task=t, spec=r["spec"], mode=it["mode"], prune=it["prune"], episode=it["episode"], label=label))
-        if must and start == 0 and "sized" in o:
-            # hypotheses of the end-to-end theorem C08_accepted_instance_replays, decided by the model for these sizes
-            res.count("end_to_end_theorem_applies" if o["sized"] else "end_to_end_hypotheses_unmet")
+        if must and "sized" in o:
+            # hypotheses of the end-to-end theorem C08_accepted_instance_replays_from_any_start, decided by the model for these sizes
+            res.count(("end_to_end_theorem_applies" if o["sized"] else "end_to_end_hypotheses_unmet") + ("" if start == 0 else "_late_start"))
             if o["sized"] and not o["ok"]:
                 res.corr_diff("sched.sized", "the decision procedure accepted an instance whose replay fails (contradicts theorem C08_accepted_instance_replays: driver / model out of sync)", dict(task=t))
             if not o["sized"] and o["ok"] and len(res.notes) < 6:
